@@ -35,6 +35,8 @@ MODULES = {
     "C20": "props_engine",
     "C19": "props_c19",
     "BLINES": "props_blines",
+    "SETINDENT": "props_setindent",  # model of set_token_indent / read_indent_configuration (development aid for C05 / C08)
+    "BMULTI": "props_bmulti",  # layer-B multi-line structure family correspondence (development aid)
 }
 
 
